@@ -498,6 +498,9 @@ func main() {
 		coverage["exhaustive"] = false
 	}
 	os.RemoveAll(dir)
+	// concurrent Malloc/Free on one allocator: explored by the controlled scheduler in its
+	// own (instrumented) binary, plus a free-running race-detector pass
+	coverage["concurrent_part"] = r.RunSub("c20s", "concurrent")
 	r.Finish(coverage, []string{
 		"the oracle judges only the property: len == size, cap >= size (whole capacity addressable), footprints (stored slice header + data up to cap) of live allocations pairwise disjoint, contents and headers of live allocations unchanged, Allocs == live, relocation callback exactly once per moved allocation with the new slice holding the old bytes; placement policy, class choice, efficiency of defragmentation and DefragAllImproved's return value are not judged",
 		"Allocator.Bytes is additionally compared with pages in use + cached pages + private mappings at quiescent points (awaited, since the refill goroutine is asynchronous); keys */bytes-counter",
@@ -665,6 +668,20 @@ func buildUnits(pr *ProbeResult, thorough bool) []*job {
 		for ci := range dcls {
 			add(&Unit{Kind: "defrag", Name: fmt.Sprintf("defrag/%s/v%d", dnames[ci], vi), Classes: [][]int{dcls[ci]}, Pages: v.pages, Partial: v.partial, Order: v.order, Rest: v.rest, Dist: v.dist, NPat: NumPatQuick},
 				3.5*float64(len(v.dist)-2))
+		}
+		// the same family with 1 and 3 allocations between fragmenting and defragmenting (no
+		// half-filled page, so they are served from the free list and defragmentation starts
+		// from a state whose last operation was a Malloc)
+		if !v.partial && (vi < 3 || len(v.dist) == 3) {
+			for _, rm := range []int{1, 3} {
+				for ci := range dcls {
+					if !thorough && (ci+vi+rm)%2 == 1 {
+						continue
+					}
+					add(&Unit{Kind: "defrag", Name: fmt.Sprintf("defrag/%s/v%d-remalloc%d", dnames[ci], vi, rm), Classes: [][]int{dcls[ci]}, Pages: v.pages, Partial: v.partial, Order: OrdDistLast, Rest: v.rest, Dist: v.dist, NPat: NumPatQuick, Remalloc: rm},
+						3.5*float64(len(v.dist)-2))
+				}
+			}
 		}
 		if len(dcls) > 1 && (vi < 2 || (thorough && len(v.dist) == 3)) {
 			add(&Unit{Kind: "defrag", Name: fmt.Sprintf("defrag/all-%d-classes/v%d", len(dcls), vi), Classes: dcls, Pages: v.pages, Partial: v.partial, Order: v.order, Rest: v.rest, Dist: v.dist, NPat: NumPatQuick}, 7.5*float64(len(v.dist)-2))
